@@ -225,7 +225,8 @@ def corpus():
         dict(base, today=d(2022, 1, 20), avail=d(2022, 1, 20), lookups=[d(2022, 1, 5), d(2022, 1, 14)], rd=[2, [0, 1, 1], 1], wr=[], rq=[])], "mem"))
     # the seeded defect "a year counts as downloaded only when the cache write succeeded"
     out.append(("write-fails-many-lookups", truth, [
-        dict(base, today=d(2022, 1, 20), avail=d(2022, 1, 20), lookups=[d(2022, 1, 5), d(2022, 1, 6), d(2022, 1, 16), d(2022, 1, 5)],
+        dict(base, today=d(2022, 1, 20), avail=d(2022, 1, 20),
+             lookups=[d(2022, 1, 5), d(2022, 1, 6), d(2022, 1, 20), d(2022, 1, 16), d(2022, 1, 21), d(2022, 1, 5)],
              rd=[], wr=[1, 1, 1, 1], rq=[])], "csv"))
     # remote failures: request error, bad document, retried by the next look-up; across the year end
     out.append(("remote-fails-then-works", truth, [
